@@ -509,7 +509,7 @@ fn run_cfg(cfg: &MCfg, ctx: &Ctx) -> Report {
     r
 }
 
-fn right_linear(order: &[usize]) -> VT {
+pub fn right_linear(order: &[usize]) -> VT {
     let mut t = VT::Leaf(*order.last().unwrap());
     for &l in order.iter().rev().skip(1) {
         t = VT::Node(Box::new(VT::Leaf(l)), Box::new(t));
@@ -517,7 +517,7 @@ fn right_linear(order: &[usize]) -> VT {
     t
 }
 
-fn left_linear(order: &[usize]) -> VT {
+pub fn left_linear(order: &[usize]) -> VT {
     let mut t = VT::Leaf(order[0]);
     for &l in order.iter().skip(1) {
         t = VT::Node(Box::new(t), Box::new(VT::Leaf(l)));
@@ -525,7 +525,7 @@ fn left_linear(order: &[usize]) -> VT {
     t
 }
 
-fn balanced(order: &[usize]) -> VT {
+pub fn balanced(order: &[usize]) -> VT {
     if order.len() == 1 {
         return VT::Leaf(order[0]);
     }
